@@ -66,7 +66,9 @@ def run(ctx):
     ctx.rule = ("bounded part: ALL histories of length <= L over {write(k,shape0..2), remove(k)} x keys {a,b}, "
                 "each followed after every step by metadata+read of both keys; random part: seeded histories of "
                 "20-200 steps over 8 keys (hostile key set), shared values, re-insertion after removal, foreign "
-                "records placed in other keys' buckets, mixed sync/async modes on one directory. distinct = "
+                "records placed in other keys' buckets, mixed sync/async modes on one directory; twin caches: two "
+                "directories used alternately by the same processes with the same keys and overlapping values, both "
+                "asked after every step, one model per directory. distinct = "
                 "distinct sequences of (op, key, shape) (bounded) / distinct model states reached (random)")
     ctx.assumptions = ["single process at a time (concurrency is C07)", "healthy filesystem"]
     alphabet = [("w", k, s) for k in ("a", "b") for s in range(len(SHAPES))] + [("r", k, None) for k in ("a", "b")]
@@ -156,6 +158,71 @@ def run(ctx):
         ctx.rm(cache.rsplit("/", 1)[0])
     ctx.count("long_bucket_histories", nlong)
     ctx.extra["distinct_final_states_random"] = len(states)
+    twin_caches(ctx, rng, modes)
+
+
+def twin_caches(ctx, rng, modes):
+    """Two cache directories used alternately by the SAME processes, with the same keys and overlapping values: the
+    answer for one directory must never depend on what was done in the other (anything remembered in the process
+    has to be remembered per cache directory)."""
+    nh = 60 if ctx.quick else 800
+    for h in range(nh):
+        base = ctx.new_dir(f"twin{h}")
+        import os
+        caches = [os.path.join(base, "cache-a"), os.path.join(base, "cache-b")]
+        keys = ["k", "other", rng.choice(gen.HOSTILE_KEYS)]
+        mixed = rng.random() < 0.5
+        pure = rng.choice(modes)
+        steps = []
+        known = []
+        for j in range(rng.randint(25, 60)):
+            m = rng.choice(modes) if mixed else pure
+            w = rng.randrange(2)
+            k = rng.choice(keys)
+            r = rng.random()
+            if r < 0.45:
+                st = write_step(ctx, m, caches[w], k, rng.randrange(len(SHAPES)), rng.choice([None, b"1", b"2"]))
+                known.append(ref.sri("sha256", st["data"]))
+            elif r < 0.6:
+                st = {"mode": m, "req": {"op": "remove", "cache": caches[w], "key": k}}
+            elif r < 0.7 and known:
+                st = {"mode": m, "req": {"op": "remove_hash", "cache": caches[w], "sri": rng.choice(known)}}
+            elif r < 0.75:
+                st = {"mode": m, "req": {"op": "remove_fully", "cache": caches[w], "key": k}}
+            else:
+                st = None
+            if st:
+                st["which"] = w
+                steps.append(st)
+            # ask BOTH directories right away
+            pm = rng.choice(modes) if mixed else pure
+            for w2 in rng.sample([0, 1], 2):
+                qs = probes(pm, caches[w2], [rng.choice(keys)], with_read=True)
+                if known and rng.random() < 0.6:
+                    a = rng.choice(known)
+                    qs.append({"mode": pm, "req": {"op": "exists", "cache": caches[w2], "sri": a}, "probe": True})
+                    qs.append({"mode": pm, "req": {"op": "read_hash", "cache": caches[w2], "sri": a}, "probe": True})
+                if rng.random() < 0.15:
+                    qs.append({"mode": "sync@astd", "req": {"op": "list", "cache": caches[w2]}, "probe": True})
+                for q in qs:
+                    q["which"] = w2
+                steps.extend(qs)
+        resps = hist.execute(ctx, steps)
+        models = [Model(), Model()]
+        for i, (st, r) in enumerate(zip(steps, resps)):
+            probs, _obs = hist.judge(models[st["which"]], st, r)
+            if st.get("probe"):
+                ctx.count("lookups_compared")
+            if probs:
+                ctx.violation(f"twin-caches|{st['req']['op']}|{'mixed' if mixed else pure}|{'probe' if st.get('probe') else 'mutation'}",
+                              f"two caches used alternately, history T{h} step {i} (cache-{'ab'[st['which']]}): {probs[0]}",
+                              {"history": f"T{h}", "step": i, "problems": probs[:5],
+                               "steps": [[x["mode"], x["req"]] for x in steps[:i + 1]]})
+                break
+        ctx.case(distinct_key=("twin", models[0].state_id(), models[1].state_id()),
+                 sample={"kind": "twin caches", "steps": len(steps), "mixed": mixed} if h < 2 else None)
+        ctx.rm(base)
+    ctx.count("twin_cache_histories", nh)
 
 
 def run_with_foreign(ctx, steps, cache, hid):
